@@ -7,6 +7,7 @@ fairness and the timing of `queueScanLoop`: not provable here (see the note befo
 -/
 import Nsq.Proofs.ChanCount
 import Nsq.Props.C02
+import Nsq.Proofs.ChanNsqd
 namespace Nsq.Props.C01
 open Nsq.Model.Chan Nsq.Proofs.Chan
 
@@ -184,5 +185,146 @@ example : (∃ e ∈ (run C02.exConf {} (C02.exOps.take 5)).msgs, e.id = 7) ∧
     7 ∈ fannedIds (run C02.exConf {} (C02.exOps.take 5)).hist ∧
     removed (run C02.exConf {} (C02.exOps.take 5)).hist 7 = false := by decide
 example : removed C02.exChan.hist 7 = true ∧ 7 ∈ fannedIds C02.exChan.hist ∧ C02.exChan.msgs = [] := by decide
+
+
+/-! ## topic / nsqd level -/
+section Nsqd
+open Nsq.Model.ChanNsqd Nsq.Proofs.ChanNsqd
+
+/-- reachable nsqd states: from an empty daemon (any configuration) by any list of API-level
+operations (everything except the two halves of a split channel creation) -/
+def NReachable (s : State) : Prop :=
+  ∃ (conf : NConf) (ops : List Nsq.Model.ChanNsqd.Op), (∀ op ∈ ops, Op.api op = true) ∧
+    s = Nsq.Model.ChanNsqd.run { conf := conf } ops
+
+theorem nreachable_inv {s : State} (h : NReachable s) : NInv s := by
+  obtain ⟨conf, ops, hapi, rfl⟩ := h
+  exact nrun_inv (ninv_init conf) ops hapi
+
+/-- every channel of every topic of every reachable daemon state satisfies the channel
+invariant — so all channel-level statements of C01, C02, C13 hold for it -/
+theorem every_channel_inv {s : State} (h : NReachable s) {t : Topic} (ht : t ∈ s.topics) {nc : NChan} (hnc : nc ∈ t.chans) :
+    Inv 0 nc.ch := ((nreachable_inv h).topics t ht).chans nc hnc
+
+theorem ensureTopic_has (s : State) (t : Nat) : ∃ y ∈ (ensureTopic s t).topics, y.tid = t := by
+  unfold ensureTopic
+  split
+  · rename_i tp hf
+    exact ⟨tp, (findT_some hf).1, (findT_some hf).2⟩
+  · exact ⟨{ tid := t, memCap := s.conf.memq }, by simp, rfl⟩
+
+/-- C01.1 `ack_implies_enqueued` — when PUB / DPUB is answered OK (`.ids [id]`) the message is in
+the topic's queue (memory or disk) and recorded as acknowledged, whatever the topic's state
+(paused, without channels, memory queue full). (In the code: `okBytes` is returned only after a
+successful `PutMessage` — regenerated facts `Tie.Chan.pubAck_eq`, `dpubAck_eq`, `mpubAck_eq`.) -/
+theorem ack_implies_enqueued (s : State) (t sz d : Nat) :
+    (Nsq.Model.ChanNsqd.step s (.pub t sz)).2 = .ids [s.nextId] ∧
+    (∃ tp ∈ (Nsq.Model.ChanNsqd.step s (.pub t sz)).1.topics, tp.tid = t ∧
+        s.nextId ∈ tp.queue.map (·.id) ∧ s.nextId ∈ tp.acked) ∧
+    (Nsq.Model.ChanNsqd.step s (.dpub t sz d)).2 = .ids [s.nextId] ∧
+    (∃ tp ∈ (Nsq.Model.ChanNsqd.step s (.dpub t sz d)).1.topics, tp.tid = t ∧
+        s.nextId ∈ tp.queue.map (·.id) ∧ s.nextId ∈ tp.acked) := by
+  obtain ⟨y, hy, hyt⟩ := ensureTopic_has s t
+  have hn := (ensureTopic_nextId s t).1
+  refine ⟨by simp [Nsq.Model.ChanNsqd.step, hn], ?_, by simp [Nsq.Model.ChanNsqd.step, hn], ?_⟩
+  · simp only [Nsq.Model.ChanNsqd.step]
+    refine ⟨_, mem_updT.2 ⟨y, hy, rfl⟩, ?_⟩
+    simp [hyt, putT, hn]
+  · simp only [Nsq.Model.ChanNsqd.step]
+    refine ⟨_, mem_updT.2 ⟨y, hy, rfl⟩, ?_⟩
+    simp [hyt, putT, hn]
+
+/-- MPUB: every message of an acknowledged multi-publish is in the topic queue -/
+theorem ack_implies_enqueued_mpub (s : State) (t : Nat) (sizes : List Nat) :
+    (Nsq.Model.ChanNsqd.step s (.mpub t sizes)).2 = .ids (idsFrom s.nextId sizes.length) ∧
+    ∃ tp ∈ (Nsq.Model.ChanNsqd.step s (.mpub t sizes)).1.topics, tp.tid = t ∧
+      ∀ i ∈ idsFrom s.nextId sizes.length, i ∈ tp.queue.map (·.id) ∧ i ∈ tp.acked := by
+  obtain ⟨y, hy, hyt⟩ := ensureTopic_has s t
+  have hn := (ensureTopic_nextId s t).1
+  refine ⟨by simp [Nsq.Model.ChanNsqd.step, hn], ?_⟩
+  simp only [Nsq.Model.ChanNsqd.step]
+  refine ⟨_, mem_updT.2 ⟨y, hy, rfl⟩, ?_⟩
+  obtain ⟨q, hq1, hq2⟩ := putMany_spec y (ensureTopic s t).nextId sizes
+  rw [hn] at hq1 hq2
+  simp only [hyt, ↓reduceIte, hn, hq1, hq2]
+  refine ⟨trivial, ?_⟩
+  intro i hi
+  simp [hi]
+
+/-- C01.2 `fanout_complete` — in every reachable state, an acknowledged message is still in the
+topic queue or has a fan-out event on EVERY channel of the topic that existed when it was
+published (`born ≤ id`: ids are issued in publish order) and still exists; and the pump's snapshot
+is the channel map (channel creation returns only after the `channelUpdateChan` handshake). -/
+theorem fanout_complete {s : State} (h : NReachable s) {t : Topic} (ht : t ∈ s.topics) :
+    t.pump = t.chans.map (·.cid) ∧
+    ∀ i ∈ t.acked, i ∈ t.queue.map (·.id) ∨
+      ∀ nc ∈ t.chans, nc.born ≤ i → i ∈ fannedIds nc.ch.hist := by
+  have hi := (nreachable_inv h).topics t ht
+  refine ⟨hi.pfresh, ?_⟩
+  intro i hia
+  rcases (hi.ackq i).1 (Or.inl hia) with hq | hp
+  · exact Or.inl hq
+  · right
+    intro nc hnc hb
+    rw [mem_fannedIds]
+    exact hi.fan nc hnc i hp hb
+
+/-- together with the channel ledger: an acknowledged message is, on every such channel, still
+located (queued / in flight / deferred) or was removed by one of the four removal events -/
+theorem acked_is_located_or_removed {s : State} (h : NReachable s) {t : Topic} (ht : t ∈ s.topics)
+    {i : Nat} (hia : i ∈ t.acked) (hq : i ∉ t.queue.map (·.id)) {nc : NChan} (hnc : nc ∈ t.chans) (hb : nc.born ≤ i) :
+    (∃ e ∈ nc.ch.msgs, e.id = i) ∨ removed nc.ch.hist i = true := by
+  have hinv := every_channel_inv h ht hnc
+  have hf : i ∈ fannedIds nc.ch.hist := by
+    rcases (fanout_complete h ht).2 i hia with h1 | h1
+    · exact absurd h1 hq
+    · exact h1 nc hnc hb
+  cases hr : removed nc.ch.hist i
+  · left
+    apply hinv.core.absent
+    rw [mem_fannedIds] at hf
+    have h1 : status nc.ch.hist i ≠ .none := fun h' => hf ((status_none_iff hinv.okh).1 h')
+    have h2 : status nc.ch.hist i ≠ .gone := by
+      intro h'
+      rw [(status_gone_iff hinv.okh).1 h'] at hr
+      cases hr
+    cases hs : status nc.ch.hist i <;> simp_all [St.located]
+  · exact Or.inr rfl
+
+/-- progress at the topic: a queued message, at least one channel in the snapshot and the topic
+not paused make the fan-out step enabled -/
+theorem pump_enabled (s : State) {t : Nat} {tp : Topic} (hf : findT s.topics t = some tp)
+    (hp : pumpEnabled tp = true) {m : TMsg} (hm : tp.queue.find? (fun x => x.id == m.id) = some m)
+    (pris : List (Nat × Int)) :
+    ∃ kept, (Nsq.Model.ChanNsqd.step s (.pumpTopic t m.id kept pris)).2
+      = .ids ((tp.chans.filter (fun nc => tp.pump.contains nc.cid)).map (·.cid)) := by
+  refine ⟨(match m.place with | .disk => false | _ => true), ?_⟩
+  have hk : keptAllowed m (match m.place with | .disk => false | _ => true) = true := by
+    unfold keptAllowed
+    split
+    · rfl
+    · cases m.place <;> rfl
+  simp [Nsq.Model.ChanNsqd.step, hf, hp, hm, hk]
+
+/-- a channel created while a message is being pumped is part of the snapshot from the next
+`refreshPump` on (the real `GetChannel` blocks until then) -/
+theorem refresh_restores_snapshot (s : State) (t : Nat) {tp : Topic}
+    (h : tp ∈ (Nsq.Model.ChanNsqd.step s (.refreshPump t)).1.topics) (ht : tp.tid = t) :
+    tp.pump = tp.chans.map (·.cid) := by
+  simp only [Nsq.Model.ChanNsqd.step] at h
+  obtain ⟨y, _, rfl⟩ := mem_updT.1 h
+  by_cases hk : y.tid = t
+  · simp [hk]
+  · simp only [hk, ↓reduceIte] at ht
+
+/-! non-vacuity at the nsqd level -/
+def exN : State := Nsq.Model.ChanNsqd.run { conf := { memq := 1 } }
+  [.createChan 1 1 false, .pub 1 10, .pumpTopic 1 1 false [], .createChan 1 2 false, .pub 1 20, .pumpTopic 1 2 false []]
+example : NReachable exN := ⟨_, _, by decide, rfl⟩
+/-- channel 2 was created after message 1 was published: it has message 2 only -/
+example : exN.topics.map (fun t => t.chans.map (fun nc => (nc.cid, nc.born, nc.ch.msgs.map (·.id)))) =
+    [[(1, 1, [2, 1]), (2, 2, [2])]] := by decide
+
+end Nsqd
 
 end Nsq.Props.C01
